@@ -43,7 +43,11 @@ def from_text(text: str) -> int:
     """
 
     if text.isdecimal():
-        total = int(text)
+        try:
+            total = int(text)
+        except ValueError:
+            # e.g. more digits than the interpreter converts (sys.set_int_max_str_digits)
+            raise BadTTL
     elif len(text) == 0:
         raise BadTTL
     else:
